@@ -57,7 +57,8 @@ def operand(rng: Any, s: Any, kind: str | None = None, *, square: bool = False) 
         if gen.is_sds(s):
             a = gen.spd(rng, s)
         else:
-            a = HomothetyOperator(jnp.asarray(2.0, dtype=gen.data_dtype(s)), s) + gen.a_homothety(rng, s).T @ gen.a_homothety(rng, s)
+            h = gen.a_homothety(rng, s)
+            a = HomothetyOperator(jnp.asarray(2.0, dtype=gen.data_dtype(s)), s) + h.T @ h  # (2 + k^2) I: positive definite
         with Config(solver_callback=lambda sol: None):
             return kind, a.I
     if kind == 'block':
